@@ -194,12 +194,13 @@ func c16GenRanges(r *Run, fn *ssa.Function) {
 					r.Valuations++
 					sent := reach.Has(sends[0])
 					updated := reach.Has(upd[0])
-					wantSend := o.name == "start<end" || c == "T"
+					// a range is only emitted while the cursor is below the end in force (a start index at or
+					// beyond the tree — Prepare clamps EndIndex to the tree size, not StartIndex — waits for
+					// growth in continuous mode and ends the scan otherwise; emitting there would move the
+					// cursor backwards and deliver indices below the requested start)
+					wantSend := o.name == "start<end"
 					r.Check("genRanges:loop["+o.name+",continuous="+c+"].emits", sent == wantSend, r.Where(sends[0]), fmt.Sprintf("range emitted=%v, wanted %v", sent, wantSend))
-					wantUpd := o.name == "start=end" && c == "T"
-					if o.name == "start>end" {
-						continue // infeasible after Prepare; not constrained
-					}
+					wantUpd := o.name != "start<end" && c == "T"
 					r.Check("genRanges:loop["+o.name+",continuous="+c+"].refreshes-sth", updated == wantUpd, r.Where(upd[0]), fmt.Sprintf("STH refreshed=%v, wanted %v", updated, wantUpd))
 				}
 			}
